@@ -50,12 +50,25 @@ def run(ctx: Ctx) -> None:
         raise MachineryError("no call-site configurations emitted")
     ctx.extra["configurations_enumerated"] = len(cfgs)
     two = [c for c in cfgs if len(c["sites"]) == 2]
+    two.sort(key=lambda c: json.dumps(c, sort_keys=True))
     rng.shuffle(two)
     # prefer pairs that differ in exactly the dimensions a key must separate
     def interesting(c):
         a, b = c["sites"]
         return (a["inst"] != b["inst"]) or a["kw"] != b["kw"] or a["shp"] != b["shp"] or a["dt"] != b["dt"]
-    pick = [c for c in two if interesting(c)][: (70 if ctx.quick else 1500)] + [c for c in two if not interesting(c)][: (10 if ctx.quick else 100)]
+    def must(c):
+        # the neighbourhoods the added invariants are about: keyword order (CallBinding) and
+        # definitions allocated in sibling function bodies (NamesUnique / ResolvedSound)
+        a, b = c["sites"]
+        base = a["shp"] == b["shp"] == 1 and a["dt"] == b["dt"] == 1
+        kwo = base and {a["kw"], b["kw"]} <= {"ab", "ba"} and a["scope"] == b["scope"] == "top"
+        sib = base and a["scope"] == b["scope"] == "body" and a["kw"] in ("none", "s1") and b["kw"] in ("none", "s1")
+        mixed = base and {a["scope"], b["scope"]} == {"top", "body"} and a["kw"] == b["kw"] == "none"
+        return kwo or sib or mixed
+    musts = [c for c in two if must(c)]
+    rest = [c for c in two if not must(c)]
+    pick = musts[: (60 if ctx.quick else 10**6)] + [c for c in rest if interesting(c)][: (50 if ctx.quick else 1500)] + [c for c in rest if not interesting(c)][: (8 if ctx.quick else 100)]
+    ctx.extra["configurations_must"] = len(musts)
     items = []
     for i, c in enumerate(pick):
         kinds = KINDS if not ctx.quick else [KINDS[i % len(KINDS)], KINDS[(i + 2) % len(KINDS)]]
@@ -78,7 +91,7 @@ def run(ctx: Ctx) -> None:
             ctx.count(json.dumps({"cfg": {k: c[k] for k in ("tab", "unique", "sites")}, "kind": it["kind"]}, sort_keys=True), nontrivial=c["sems"] > 1 or c["ndefs"] < len(c["sites"]))
             for p in rec["problems"]:
                 a, b = c["sites"]
-                ctx.violation({"engine": "fn_replay", "kind": it["kind"], "unique": c["unique"], "tab": c["tab"], "kw": [a["kw"], b["kw"]], "same_inst": a["inst"] == b["inst"], "what": p.split(":")[-1].strip()[:50]}, f"[{it['kind']}, unique={c['unique']}, table={c['tab']}, sites={c['sites']}] {p}", {"cfg": c, "rec": rec})
+                ctx.violation({"engine": "fn_replay", "kind": it["kind"], "unique": c["unique"], "tab": c["tab"], "kw": [a["kw"], b["kw"]], "scope": [a.get("scope", "top"), b.get("scope", "top")], "same_inst": a["inst"] == b["inst"], "what": p.split(":")[-1].strip()[:50]}, f"[{it['kind']}, unique={c['unique']}, table={c['tab']}, sites={c['sites']}] {p}", {"cfg": c, "rec": rec})
             if len(ctx.cov["samples"]) < 8 and rec.get("status") == "ok":
                 ctx.sample({"kind": it["kind"], "unique": c["unique"], "table": c["tab"], "sites": c["sites"], "spec_defs": c["ndefs"], "real_defs": rec.get("ndefs"), "distinct_functions": c["sems"], "problems": rec["problems"]})
     ctx.extra["replay_status"] = stats
